@@ -1,4 +1,5 @@
 import Mutagen.Proofs.Reconcile
+import Mutagen.Proofs.Reach
 /-!
 # C01 — two-way-safe synchronization never loses a modification
 
@@ -80,11 +81,46 @@ propagated to beta (so the quantification over planned changes is not empty). -/
 example : (Reconcile (some exampleFile1) (some exampleFile2) (some exampleFile1) .twoWaySafe).beta ≠ [] := by
   rw [example_modification_propagates]; simp
 
--- TODO theorem twoWaySafe_conflict (full strength, DESIGN §8 C01 (3)): for every path at which the
---   recursion reaches a disagreement with non-deletion changes on both sides, the *plan of `Reconcile`*
---   contains a conflict rooted there and no change at, above or below it. Proved here at the handler
---   (`twoWaySafe_both_modified_conflict`); together with `C06.actions_incomparable` this gives the
---   no-touch part; what is missing is the formal notion "the recursion reaches `path`" lifted to `Reconcile`.
+/-- **Conflict instead of overwrite, for the whole plan**: wherever the
+recursion of two-way-safe reconciliation reaches a disagreement (`Reaches`: the
+endpoints agree shallowly on every proper prefix of `rel`, differ at `rel`, and
+nothing on the way is problematic or absent on both sides) at which the
+synchronizable parts of *both* endpoints contain creations or modifications
+relative to the ancestor passed down to that path, the plan of `Reconcile`
+contains a conflict rooted there, and no alpha or beta change of the plan lies
+at, above or below that path — both versions stay where they are. -/
+theorem twoWaySafe_conflict (A alpha beta : Option Entry) (rel : Path) (hr : Reaches alpha beta rel)
+    (hα : nonDeletion (diff rel (effAnc A alpha rel) (osync (getPath alpha rel))) ≠ [])
+    (hβ : nonDeletion (diff rel (effAnc A alpha rel) (osync (getPath beta rel))) ≠ []) :
+    (∃ c ∈ (Reconcile A alpha beta .twoWaySafe).conflicts, c.root = rel) ∧
+    (∀ c ∈ (Reconcile A alpha beta .twoWaySafe).alpha, incomparable c.path rel) ∧
+    (∀ c ∈ (Reconcile A alpha beta .twoWaySafe).beta, incomparable c.path rel) := by
+  have hsub := (reconcile_sub .twoWaySafe rel [] A alpha beta hr).2.2
+  have hH : handleDisagreement .twoWaySafe ([] ++ rel) (effAnc A alpha rel) (getPath alpha rel) (getPath beta rel) =
+      Plan.conflict rel (nonDeletion (diff rel (effAnc A alpha rel) (osync (getPath alpha rel))))
+        (nonDeletion (diff rel (effAnc A alpha rel) (osync (getPath beta rel)))) := by
+    simp only [List.nil_append, handleDisagreement]
+    exact twoWaySafe_both_modified_conflict rel _ _ _ hα hβ
+  rw [hH] at hsub
+  have hc := hsub ⟨rel, nonDeletion (diff rel (effAnc A alpha rel) (osync (getPath alpha rel))),
+    nonDeletion (diff rel (effAnc A alpha rel) (osync (getPath beta rel)))⟩ (by simp [Plan.conflict])
+  have hex := conflict_excludes_changes .twoWaySafe [] A alpha beta _ hc
+  exact ⟨⟨_, hc, rfl⟩, hex.1, hex.2⟩
+
+/-- The same against the last-synchronized tree itself: for a valid
+synchronizable ancestor and valid phantom-free endpoints the ancestor passed
+down to a reached disagreement is the ancestor's own sub-tree at that path. -/
+theorem twoWaySafe_conflict_valid (A alpha beta : Option Entry) (rel : Path)
+    (hA : ValidSync A) (hal : Valid alpha) (hbe : Valid beta)
+    (hpα : onoPhantom alpha = true) (hpβ : onoPhantom beta = true) (hr : Reaches alpha beta rel)
+    (hα : nonDeletion (diff rel (getPath A rel) (osync (getPath alpha rel))) ≠ [])
+    (hβ : nonDeletion (diff rel (getPath A rel) (osync (getPath beta rel))) ≠ []) :
+    (∃ c ∈ (Reconcile A alpha beta .twoWaySafe).conflicts, c.root = rel) ∧
+    (∀ c ∈ (Reconcile A alpha beta .twoWaySafe).alpha, incomparable c.path rel) ∧
+    (∀ c ∈ (Reconcile A alpha beta .twoWaySafe).beta, incomparable c.path rel) := by
+  have e := effAnc_eq_getPath rel A alpha beta hA hal hbe hpα hpβ hr
+  exact twoWaySafe_conflict A alpha beta rel hr (e ▸ hα) (e ▸ hβ)
+
 -- TODO theorem twoWaySafe_history (DESIGN §8 C01 (4)): induction over a history of (edit*, cycle) steps
 --   using the C04/C05 ancestor update; needs the C04 fixpoint theorem.
 
